@@ -349,6 +349,134 @@ def name_subexprs(tree):
     return n
 
 
+# ------------------------------------------------------------------ rename-binders (comprehension variables, lambda parameters)
+def rename_binders(tree):
+    n = 0
+    for fn in list(functions(tree)):
+        _, scopes = canon.ordered_binders(fn)
+        # innermost first so that an outer renaming does not disturb the inner node's own names
+        for node, names in reversed(scopes):
+            if not names or len(set(names)) != len(names):
+                continue
+            inner = {x.id for x in ast.walk(node) if isinstance(x, ast.Name)}
+            mapping = {a: f"{a}_b" for a in names if f"{a}_b" not in inner}
+            if isinstance(node, ast.Lambda) and (node.args.kwonlyargs or node.args.vararg or node.args.kwarg):
+                continue
+            canon._rename_scope(node, mapping)
+            n += len(mapping)
+    return n
+
+
+# ------------------------------------------------------------------ extract-expr / extract-tail
+_SKIP_IN_EXTRACT = (ast.Lambda, ast.ListComp, ast.SetComp, ast.DictComp, ast.GeneratorExp, ast.Yield, ast.YieldFrom, ast.Await, ast.NamedExpr, ast.Starred, ast.JoinedStr)
+
+
+def _module_globals(tree):
+    out = set()
+    for st in tree.body:
+        for x in ast.walk(st) if not isinstance(st, (ast.FunctionDef, ast.ClassDef)) else [st]:
+            if isinstance(x, ast.Name) and isinstance(x.ctx, ast.Store):
+                out.add(x.id)
+            elif isinstance(x, (ast.FunctionDef, ast.ClassDef)):
+                out.add(x.name)
+            elif isinstance(x, ast.alias):
+                out.add((x.asname or x.name).split(".")[0])
+    return out
+
+
+def _method_functions(tree):
+    """(function node, owner) for module-level functions and direct methods (nested functions are left alone: their free
+    variables may belong to the enclosing function)."""
+    for st in tree.body:
+        if isinstance(st, ast.FunctionDef):
+            yield st
+        elif isinstance(st, ast.ClassDef):
+            for s2 in st.body:
+                if isinstance(s2, ast.FunctionDef):
+                    yield s2
+
+
+def extract_expr(tree):
+    """The largest keyword-argument / right-hand-side expression of each function moves to a module-level helper taking its
+    free local names as parameters."""
+    n = 0
+    new_defs = []
+    for fn in list(_method_functions(tree)):
+        local_names = set(canon._bound_names(fn)) | set(canon._params(fn))
+        best = None
+        for x in canon._own_nodes(fn):
+            cands = []
+            if isinstance(x, ast.Call):
+                cands = [k.value for k in x.keywords if k.arg is not None] + list(x.args)
+            for e in cands:
+                if not isinstance(e, (ast.BinOp, ast.IfExp, ast.Compare, ast.BoolOp, ast.Subscript)):
+                    continue
+                if any(isinstance(y, _SKIP_IN_EXTRACT) for y in ast.walk(e)):
+                    continue
+                if any(isinstance(y, ast.Name) and y.id.startswith("__") for y in ast.walk(e)) or any(isinstance(y, ast.Attribute) and y.attr.startswith("__") and not y.attr.endswith("__") for y in ast.walk(e)):
+                    continue
+                if any(isinstance(y, ast.Call) and isinstance(y.func, ast.Name) and y.func.id == "super" for y in ast.walk(e)):
+                    continue
+                # not inside a lambda / comprehension of the function (their variables would be free)
+                size = sum(1 for _ in ast.walk(e))
+                if size >= 6 and (best is None or size > best[0]):
+                    best = (size, x, e)
+        if best is None:
+            continue
+        _, call, e = best
+        # reject when the expression sits inside a comprehension / lambda (checked via own scope names)
+        inner_scopes = [s for s in ast.walk(fn) if isinstance(s, (ast.Lambda, ast.ListComp, ast.SetComp, ast.DictComp, ast.GeneratorExp))]
+        if any(any(y is e for y in ast.walk(s)) for s in inner_scopes):
+            continue
+        free = sorted({y.id for y in ast.walk(e) if isinstance(y, ast.Name) and y.id in local_names})
+        name = f"_extracted_expr_{n}"
+        d = ast.FunctionDef(name=name, args=ast.arguments(posonlyargs=[], args=[ast.arg(arg=a) for a in free], kwonlyargs=[], kw_defaults=[], defaults=[]), body=[ast.Return(value=copy.deepcopy(e))], decorator_list=[], returns=None, type_comment=None, type_params=[])
+        repl = ast.Call(func=ast.Name(id=name, ctx=ast.Load()), args=[ast.Name(id=a, ctx=ast.Load()) for a in free], keywords=[])
+        call.args = [repl if a is e else a for a in call.args]
+        for k in call.keywords:
+            if k.value is e:
+                k.value = repl
+        new_defs.append(d)
+        n += 1
+    tree.body.extend(new_defs)
+    return n
+
+
+def extract_tail(tree):
+    """The second half of each sufficiently long function body moves to a module-level helper: `return _tail_k(<locals>)`."""
+    n = 0
+    new_defs = []
+    for fn in list(_method_functions(tree)):
+        body = fn.body
+        doc = 1 if body and isinstance(body[0], ast.Expr) and isinstance(body[0].value, ast.Constant) and isinstance(body[0].value.value, str) else 0
+        stmts = body[doc:]
+        if len(stmts) < 4 or fn.name.startswith("__") and fn.name != "__init__":
+            continue
+        if any(isinstance(x, (ast.Yield, ast.YieldFrom, ast.Await, ast.Global, ast.Nonlocal)) for x in ast.walk(fn)):
+            continue
+        cut = len(stmts) // 2
+        head, tail = stmts[:cut], stmts[cut:]
+        holder = ast.Module(body=tail, type_ignores=[])
+        if any(isinstance(x, ast.Call) and isinstance(x.func, ast.Name) and x.func.id in ("super", "locals", "vars") for x in ast.walk(holder)):
+            continue
+        if any(isinstance(x, ast.Name) and x.id.startswith("__") and not x.id.endswith("__") for x in ast.walk(holder)) or any(isinstance(x, ast.Attribute) and x.attr.startswith("__") and not x.attr.endswith("__") for x in ast.walk(holder)):
+            continue
+        # locals defined in the head (or parameters) that the tail mentions anywhere are passed in
+        head_holder = ast.FunctionDef(name="_", args=fn.args, body=head or [ast.Pass()], decorator_list=[], returns=None, type_comment=None, type_params=[])
+        avail = set(canon._bound_names(head_holder)) | set(canon._params(fn))
+        used = {x.id for x in ast.walk(holder) if isinstance(x, ast.Name)}
+        free = [a for a in canon._params(fn) if a in used] + sorted((avail - set(canon._params(fn))) & used)
+        # a name the tail both reads-before-writes and that is not available would be a bug already; nothing to check
+        name = f"_extracted_tail_{n}"
+        tail_body = tail if canon._terminates(tail) else tail + [ast.Return(value=None)]
+        d = ast.FunctionDef(name=name, args=ast.arguments(posonlyargs=[], args=[ast.arg(arg=a) for a in free], kwonlyargs=[], kw_defaults=[], defaults=[]), body=tail_body, decorator_list=[], returns=None, type_comment=None, type_params=[])
+        fn.body = body[:doc] + head + [ast.Return(value=ast.Call(func=ast.Name(id=name, ctx=ast.Load()), args=[ast.Name(id=a, ctx=ast.Load()) for a in free], keywords=[]))]
+        new_defs.append(d)
+        n += 1
+    tree.body.extend(new_defs)
+    return n
+
+
 TRANSFORMS = {
     "rename-locals": rename_locals,
     "unparse-only": lambda t: 1,
@@ -358,6 +486,9 @@ TRANSFORMS = {
     "lambda-to-def": lambda_to_def,
     "comp-to-loop": comp_to_loop,
     "name-subexprs": name_subexprs,
+    "rename-binders": rename_binders,
+    "extract-expr": extract_expr,
+    "extract-tail": extract_tail,
 }
 
 
